@@ -48,7 +48,9 @@ ASSUMPTIONS = [
     "overshoot slack past a spinodal: 10*rTol*T_s + gradTol/|d(grad)/dT| (fold) or HessianTol/|d lambda/dT| (instability)",
     "a trace that stops by a spinodal must stop within one maximal step dT of it (the step that crosses it is the one rejected)",
     "history section: genuineness/flag/consistency relations are evaluated against the request clipped by the object's "
-    "own min/maxPossibleTemperature; coverage of the USER's request is a separate relation (history-covers-request-*)",
+    "own min/maxPossibleTemperature; what the property says about the USER's request is a separate relation (history-honours-request-*)",
+    "a trace that needs more than CALL_CAP = 200000 potential evaluations (28x the largest count on the unchanged tree) counts as "
+    "not terminating (relation trace-completes); this replaces a wall-clock timeout by a deterministic bound",
     "findCriticalTemperature must return T_c if T_c lies inside the common usable range by more than dT, must raise "
     "WallGoError if T_c lies outside it; in between either outcome is accepted",
 ]
@@ -648,7 +650,6 @@ def case_tc(p: dict) -> dict:
         return r.result(nontrivial=False)
     cmin = max(th.freeEnergyHigh.minPossibleTemperature[0], th.freeEnergyLow.minPossibleTemperature[0])
     cmax = min(th.freeEnergyHigh.maxPossibleTemperature[0], th.freeEnergyLow.maxPossibleTemperature[0])
-    # the traced tables must themselves be on their branches over the common range, otherwise Tc below is meaningless
     got, err = None, None
     try:
         got = float(th.findCriticalTemperature(dT, rTol=rTol, paranoid=bool(p["paranoid"])))
@@ -817,12 +818,12 @@ def run(ctx) -> None:
         if name == "trace":
             ctx.note("max_veff_calls_per_trace", max([int((x.get("detail") or {}).get("veff_calls", 0)) for x in results] + [0]))
             ctx.note("veff_call_cap", CALL_CAP)
-            # metric (not a relation): interpolation error / (rTol*max(|phi0|,T0)) for the cases whose dT is at least as fine as
-            # WallGoManager's recipe dT = temperatureVariationScale * tol^(1/4)
+            # metric (not a relation): interpolation error / (rTol*max(|phi0|,T0)) over the cases without violation whose dT is
+            # at least as fine as WallGoManager's recipe dT = temperatureVariationScale * tol^(1/4)
             worst = {}
             for c, x in zip(cases, results):
                 v = (x.get("detail") or {}).get("interp_err_over_rTol_scale")
-                if v is not None and c["dTf"] <= c["rTol"] ** 0.25 * (1 + 1e-12):
+                if v is not None and x.get("verdict") == "ok" and c["dTf"] <= c["rTol"] ** 0.25 * (1 + 1e-12):
                     k = f"s={c['s']:g},rTol={c['rTol']:g}"
                     worst[k] = max(worst.get(k, 0.0), float(v))
             ctx.note("interp_error_over_rTol_scale_at_manager_recipe_dT", worst)
